@@ -1,6 +1,7 @@
 package rules
 
 import (
+	"strconv"
 	"fmt"
 	"go/ast"
 	"go/constant"
@@ -234,6 +235,12 @@ func stringLitsIn(info *types.Info, n ast.Node) []string {
 			if b, isBasic := tv.Type.Underlying().(*types.Basic); isBasic && b.Info()&types.IsString != 0 {
 				out = append(out, stringLit(info, e))
 				return false
+			}
+			// a character literal appended to a byte buffer: sig = append(sig, '(')
+			if bl, isLit := e.(*ast.BasicLit); isLit && bl.Kind == token.CHAR {
+				if r, _, _, err := strconv.UnquoteChar(bl.Value[1:len(bl.Value)-1], '\''); err == nil {
+					out = append(out, string(r))
+				}
 			}
 			return false
 		}
